@@ -1,19 +1,182 @@
-"""C20 — see harness/shellprops.py (shared exploration of the connection-level properties)
-and harness/shellrun.py (oracle_c20)."""
+"""C20 — see harness/shellrun.py (oracle_c20) and harness/shellprops.py (shared exploration of the connection-level
+properties, keepalives disabled) for the scheduled part; `keepalive_fault` below adds, in virtual time, the write faults
+that hit a line the keepalive timer produced: "the k-th write failing" does not depend on what the k-th write carries."""
+from fractions import Fraction
+
+import dsched
+import fixture
 import shellprops
+import shims
 
 PID = 'C20'
 TRUSTED = shellprops.TRUSTED
 ASSUMPTIONS = shellprops.ASSUMPTIONS
 
+HANDLERS = ['absent', True, False, None]
+
+
+def run_timed(kind, K, handler, fail_k, t_init, horizon):
+    """real server of the given kind with a positive keepalive interval, idle but for an optional init request at t_init;
+    the fail_k-th socket write raises OSError.  -> dict of observables"""
+    import lightstreamer_adapter.server as server
+    S = dsched.Sched()
+    with shims.install(S, chunks=[], end='block', fail_send=fail_k) as env:
+        clock = env.clock
+        clock.now = Fraction(0)
+        if kind == 'meta':
+            ad = fixture.metadata_adapter()
+            srv = server.MetadataProviderServer(ad, ('h', 1), name='M', keep_alive=K, thread_pool_size=1)
+            init = b'10|MPI|S|ARI.version|S|1.8.3\r\n'
+        else:
+            ad = fixture.data_adapter()
+            srv = server.DataProviderServer(ad, ('h', 1), name='D', keep_alive=K, thread_pool_size=1)
+            init = b'10|DPI|S|ARI.version|S|1.8.3\r\n'
+        h = None
+        if handler != 'absent':
+            h = fixture.make_handler(ret_io=handler, ret_ex=False)
+            srv.set_exception_handler(h)
+        env.sock.chunks.clear()
+        attempts = []
+        orig = env.sock.sendall
+
+        def sendall(data):
+            attempts.append((Fraction(clock.now), bytes(data)))
+            return orig(data)
+        env.sock.sendall = sendall
+        srv.start()
+        q = env.queues[0]
+        writer = [t for t in S.threads if t.role == 'writer'][0]
+        reader = [t for t in S.threads if t.role == 'reader'][0]
+
+        def rest(t, what):
+            return t.state == 'dead' or (t.state == 'parked' and t.pending[0] == what)
+
+        def parked():
+            return S.halted or ((writer.state == 'dead' or (rest(writer, 'get') and not q.items)) and
+                                (reader.state == 'dead' or (rest(reader, 'recv') and not env.sock.chunks)))
+
+        def advance(t):
+            n = 0
+            while not S.halted and n < 50:
+                w = q.waiter
+                if writer.state != 'dead' and w is not None and w['timeout'] is not None and not w['fired'] \
+                        and Fraction(w['start']) + Fraction(w['timeout']) < t:
+                    n += 1
+                    clock.now = Fraction(w['start']) + Fraction(w['timeout'])
+                    w['fired'] = True
+                    S.yield_('env', None, cond=parked)
+                else:
+                    break
+            clock.now = Fraction(t)
+
+        def body():
+            S.yield_('env', None, cond=parked)
+            if t_init is not None:
+                advance(Fraction(t_init))
+                env.sock.chunks.append(init)
+                S.yield_('env', None, cond=parked)
+            advance(Fraction(horizon))
+        S.spawn('env', 'env', body)
+
+        def chooser(en, sched):
+            for role in ('writer', 'reader', 'worker'):
+                for t in en:
+                    if t.role == role:
+                        return t
+            return en[0]
+        status = S.run(chooser, max_steps=50000)
+        out = {'status': status, 'attempts': attempts, 'sent': list(env.sock.sent), 'exits': list(env.os.exits),
+               'io': list(h.io) if h else None, 'ex': list(h.ex) if h else None,
+               'crashes': [e for e in S.events if e[0] == 'thread-crash' and 'env' not in e[1:3]],
+               'harness_crash': [e for e in S.events if e[0] == 'thread-crash' and 'env' in e[1:3]]}
+        S.kill_all()
+    if out['harness_crash']:
+        raise RuntimeError('C20 harness environment thread crashed: %r' % (out['harness_crash'][0],))
+    return out
+
+
+def judge(handler, fail_k, o):
+    """the fault clause of the property on one run; -> None | description"""
+    n = len(o['attempts'])
+    if n < fail_k:
+        return None                # the faulty write was never reached (nothing to judge)
+    what = o['attempts'][fail_k - 1][1]
+    if o['crashes']:
+        return 'a library thread died: %r' % (o['crashes'][0],)
+    want_exit = handler == 'absent' or handler is True
+    if handler != 'absent':
+        if len(o['io']) != 1:
+            return 'write %d (%r) failed: the I/O exception handler was notified %d times' % (fail_k, what[:30], len(o['io']))
+        if not isinstance(o['io'][0], OSError):
+            return 'the I/O exception handler received %r' % (o['io'][0],)
+        if o['ex']:
+            return 'the failure of write %d was reported to handle_exception' % fail_k
+    if want_exit and len(o['exits']) != 1:
+        return 'write %d (%r) failed, handler %r: process exit requested %d times' % (fail_k, what[:30], handler, len(o['exits']))
+    if not want_exit and o['exits']:
+        return 'write %d failed, handler returned %r: process exit requested' % (fail_k, handler)
+    if n > fail_k:
+        return 'the writer attempted %d more write(s) after write %d had failed: %r' % (n - fail_k, fail_k, [a[1][:30] for a in o['attempts'][fail_k:fail_k + 3]])
+    return None
+
+
+def cases(tier, rng):
+    out = []
+    for kind in ('meta', 'data'):
+        for handler in HANDLERS:
+            for fail_k in (1, 2, 3):
+                for t_init in (None, Fraction(1, 2), Fraction(5, 2)):
+                    out.append((kind, 1, handler, fail_k, t_init, 8))
+    if tier != 'quick':
+        for _ in range(400):
+            K = rng.choice([0.5, 1, 1.5, 2.25])
+            out.append((rng.choice(['meta', 'data']), K, rng.choice(HANDLERS), rng.randint(1, 9),
+                        rng.choice([None, Fraction(rng.randint(0, 80), 8)]), Fraction(rng.randint(8, 200), 8)))
+    return out
+
+
+def keepalive_fault(ctx, res):
+    for kind, K, handler, fail_k, t_init, horizon in cases(ctx.tier, ctx.rng):
+        o = run_timed(kind, K, handler, fail_k, t_init, horizon)
+        res.evaluations += 1
+        n = len(o['attempts'])
+        ka = n >= fail_k and o['attempts'][fail_k - 1][1] == b'KEEPALIVE\r\n'
+        res.count('timed-fault:%s' % ('not-reached' if n < fail_k else 'keepalive' if ka else 'reply'))
+        case = {'timed': True, 'server': kind, 'keep_alive': K, 'handler': repr(handler), 'fail_write': fail_k,
+                't_init': None if t_init is None else str(t_init), 'horizon': str(horizon)}
+        if n >= fail_k:
+            res.nontrivial.add(repr(case))
+        bad = judge(handler, fail_k, o)
+        if bad:
+            res.oracle_violations.append({'case': case, 'detail': bad, 'key': {'kind': 'timed_write_fault', 'keepalive': ka}})
+
 
 def run(ctx, res):
     shellprops.explore(ctx, res, PID)
+    keepalive_fault(ctx, res)
+    res.rule += ('; plus, in virtual time with a positive keepalive interval: both server kinds, handler absent / True / False / None, the 1st..9th write failing '
+                 'whatever it carries (a timer keepalive or the init reply), judged by the fault clause of the property')
 
 
 def search(ctx, res):
+    import random
+    rng = random.Random(ctx.seed + 5)
+    for kind, K, handler, fail_k, t_init, horizon in cases('thorough', rng):
+        o = run_timed(kind, K, handler, fail_k, t_init, horizon)
+        bad = judge(handler, fail_k, o)
+        if bad:
+            return {'case': {'timed': True, 'server': kind, 'keep_alive': K, 'handler': repr(handler), 'fail_write': fail_k,
+                             't_init': None if t_init is None else str(t_init), 'horizon': str(horizon)},
+                    'detail': bad, 'key': {'kind': 'timed_write_fault'}}
     return shellprops.search(ctx, res, PID)
 
 
 def replay(ctx, data):
+    c = data.get('case', {})
+    if c.get('timed'):
+        handler = {'True': True, 'False': False, 'None': None}.get(c['handler'], 'absent')
+        t_init = None if c['t_init'] is None else Fraction(c['t_init'])
+        o = run_timed(c['server'], c['keep_alive'], handler, c['fail_write'], t_init, Fraction(c['horizon']))
+        bad = judge(handler, c['fail_write'], o)
+        return bool(bad), 'attempts %r; exits %r; handler io %r; %s' % ([(str(t), d) for t, d in o['attempts'][:8]], o['exits'], o['io'], bad)
     return shellprops.replay(ctx, data, PID)
